@@ -110,7 +110,10 @@ func leafDesc(v ssa.Value) string {
 }
 
 // sizeLeaves returns the set of addends flowing into the first result of the success returns of fn.
-func sizeLeaves(fn *ssa.Function) map[string]bool {
+func sizeLeaves(fn *ssa.Function) map[string]bool { return sizeLeavesOf(fn, nil) }
+
+// sizeLeavesOf restricts the walk to one return instruction (nil: all returns).
+func sizeLeavesOf(fn *ssa.Function, only *ssa.Return) map[string]bool {
 	out := map[string]bool{}
 	seen := map[ssa.Value]bool{}
 	// under: v is an operand of an addition (or the start value of an accumulator), where a constant 0 adds nothing
@@ -177,7 +180,7 @@ func sizeLeaves(fn *ssa.Function) map[string]bool {
 	}
 	for _, b := range fn.Blocks {
 		ret, ok := b.Instrs[len(b.Instrs)-1].(*ssa.Return)
-		if !ok || len(ret.Results) == 0 || b == fn.Recover {
+		if !ok || len(ret.Results) == 0 || b == fn.Recover || only != nil && ret != only {
 			continue
 		}
 		walk(ret.Results[0], false)
@@ -302,6 +305,44 @@ func ruleSizerTerms(c *Ctx) []Ob {
 			s.undec(key, c.Pos(fn.Pos()), fmt.Sprintf("size function adds terms the rule does not recognise: %v (missing: %v)", extra, missing))
 		default:
 			s.bad(key, c.Pos(fn.Pos()), fmt.Sprintf("size function does not add exactly what the writer emits: unexpected addends %v, missing addends %v (a fast path that bypasses the per-element walk loses retained unknown bytes or mis-measures elements; a wrong multiplier or constant makes EncodedSize differ from the bytes written)", extra, missing))
+		}
+		// the struct sizer has one legitimate short answer (nil struct = STOP only); every other success return must carry
+		// every term: a second fast path that returns a partial sum loses the retained unknown bytes or the variable fields
+		if sp.name == "(*tType).EncodedSize" && len(missing) == 0 && len(extra) == 0 {
+			for _, b := range fn.Blocks {
+				ret, ok := b.Instrs[len(b.Instrs)-1].(*ssa.Return)
+				if !ok || len(ret.Results) != 2 || b == fn.Recover || definitelyNonNilErr(unspill(ret.Results[1], b), b) {
+					continue
+				}
+				nilBase := false
+				for _, cd := range domConds(b) {
+					if bo, ok := cd.V.(*ssa.BinOp); ok && (isNilConst(bo.X) || isNilConst(bo.Y)) && isUnsafePointer(bo.X.Type()) {
+						if bo.Op == token.EQL && cd.Truth || bo.Op == token.NEQ && !cd.Truth {
+							nilBase = true
+						}
+					}
+				}
+				if nilBase {
+					continue
+				}
+				one := sizeLeavesOf(fn, ret)
+				var lacks []string
+				for _, w := range []string{"c:1", "ld:" + recv + ".Sd.fixedLenFieldSize", "len([]byte at holder)"} {
+					if !one[w] {
+						lacks = append(lacks, w)
+					}
+				}
+				hasWalk := false
+				for l := range one {
+					if strings.Contains(l, "EncodedSizeFunc(") {
+						hasWalk = true
+					}
+				}
+				if !hasWalk {
+					lacks = append(lacks, "the per-field walk")
+				}
+				s.check(len(lacks) == 0, shortFn(fn)+":return-complete", c.InstrPos(ret), "success return carries the fixed part, the field walk, the unknown-field bytes and STOP", fmt.Sprintf("a success return of the struct sizer omits %v: a short cut around the full walk makes EncodedSize smaller than what the writer emits", lacks))
+			}
 		}
 		// typed views of user memory
 		for _, b := range fn.Blocks {
